@@ -970,6 +970,9 @@ def limit_cases(tier):
                         out.append({'part': 'limit', 'design': d, 'ducts': du, 're': re, 'wall': wall,
                                     'fam': list(c01.FAMS_BARE[0]) if d == 'b3' else fam, 'structure': 'bundle',
                                     'core': 1, 'conv_approx': ca, 'L': 0.012})
+                        if du == '1' and not ca:
+                            for di in (1.3, 2.4):
+                                out.append(dict(out[-1], dumpint=di))
     return out
 
 
@@ -977,8 +980,19 @@ def run_limit(c):
     from . import c04
     r = new_result()
     V = r['violations']
-    cc = {k: v for k, v in c.items() if k != 'part'}
-    with S.Built(c04.build(cc, 'zero')) as b:
+    cc = {k: v for k, v in c.items() if k not in ('part', 'dumpint')}
+    scn_ = c04.build(cc, 'zero')
+    if c.get('dumpint'):
+        # csv dumps at an interval of 1.3 (2.4) steps: reporting must not move the step
+        with S.Built(scn_) as b0:
+            try:
+                lim0 = float(b0.reactor().req_dz)
+            except SystemExit as e:
+                r['outcome'] = 'rejected-at-setup'
+                r['info'] = {'site': site_of(e)}
+                return r
+        scn_['setup']['Dump'] = {'average': True, 'interval': float('%.4g' % (c['dumpint'] * lim0))}
+    with S.Built(scn_) as b:
         try:
             rx = b.reactor()
         except SystemExit as e:
